@@ -5,6 +5,8 @@ from sxg import *
 from objgen import ObjGen, rbytes
 
 KINDS = ['other', 'brokenpipe', 'denied', 'wouldblock', 'timedout', 'writezero', 'eof', 'oom', 'invaliddata', 'storagefull']
+# (the model and the harness also know 'isadir' and 'filetoolarge': what the real devices of the save(path) cases answer)
+BUF = 8192   # std::io::DEFAULT_BUF_SIZE, the capacity of the BufWriter in Document::save(path)
 
 
 # ---------------------------------------------------------------------------------------------
@@ -30,8 +32,10 @@ def catalog_objs():
 
 
 def gen_doc(rng, g, size):
-    """size: 'tiny' (0-2 objects), 'small' (page tree + a few), 'medium' (20-60 objects with streams)"""
+    """size: 'tiny' (0-2 objects), 'small' (page tree + a few), 'medium' (20-60 objects with streams),
+    'large' (as medium plus streams of 2-4 KiB and one larger than the 8 KiB write buffer of save(path): output of 20-40 KiB)"""
     objs = []
+    pads = []
     if size == 'tiny':
         n = rng.choice([0, 1, 1, 2])
         ids = rng.sample(range(1, 9), n)
@@ -41,6 +45,14 @@ def gen_doc(rng, g, size):
         objs = catalog_objs()
         n = rng.randint(0, 4) if size == 'small' else rng.randint(20, 60)
         used = {1, 2, 3}
+        if size == 'large':
+            # big streams are described, not spelled out (the harness generates their content): lengths around the buffer
+            # capacity on purpose; their object numbers are reserved here
+            for ln in [rng.randint(2000, 4000), rng.choice([BUF - 1, BUF, BUF + 1, BUF + rng.randint(2, 3000)]), rng.randint(2000, 4000)] + \
+                      [rng.randint(1000, 6000) for _ in range(rng.randint(0, 2))]:
+                i = max(used) + rng.choice([1, 1, 2])
+                used.add(i)
+                pads.append((i, ln, rng.randrange(1 << 30)))
         for _ in range(n):
             i = rng.choice([max(used) + 1, max(used) + 1, max(used) + rng.randint(2, 4)])
             used.add(i)
@@ -58,7 +70,7 @@ def gen_doc(rng, g, size):
                 objs.append(((i, gen), D([('Linearized', I(1)), ('L', I(1234))])))
             else:
                 objs.append(((i, gen), g.obj(rng.choice([0, 1, 2, 3]))))
-    top = max([i for (i, _), _ in objs] + [0])
+    top = max([i for (i, _), _ in objs] + [i for i, _, _ in pads] + [0])
     r = rng.random()
     max_id = top if r < 0.75 else (top + rng.randint(1, 5) if r < 0.9 else max(0, top - rng.randint(1, 2)))
     trailer = []
@@ -76,13 +88,21 @@ def gen_doc(rng, g, size):
         trailer.append(('Info', D([('Producer', S(b'c19'))])))
     version = rng.choice(['1.4', '1.5', '1.7', '2.0'])
     mark = rng.choice([b'', b'', bytes([0xBB, 0xAD, 0xC0, 0xDE]), bytes(rng.randint(128, 255) for _ in range(rng.randint(1, 6)))])
-    return g.finish(DOC(version, mark, trailer, objs, max_id))
+    return g.finish(DOC(version, mark, trailer, objs, max_id)), L('pad', *[L(str(i), str(ln), str(sd)) for i, ln, sd in pads])
+
+
+def parts(hexatom):
+    """x<hex> -> (f x.. x.. ...) with atoms of at most 256 bytes"""
+    h = hexatom[1:]
+    if len(h) <= 512:
+        return hexatom
+    return L('f', *['x' + h[i:i + 512] for i in range(0, len(h), 512)])
 
 
 def base_doc():
     """previous revision for incremental saves"""
     objs = catalog_objs() + [((4, 0), ST([('Length', I(11))], b'BT (x) Tj ET')), ((5, 0), S(b'old'))]
-    return DOC('1.5', bytes([0xE2, 0xE3, 0xCF, 0xD3]), [('Root', REF(1, 0)), ('Info', REF(5, 0))], objs, 5)
+    return DOC('1.5', bytes([0xE2, 0xE3, 0xCF, 0xD3]), [('Root', REF(1, 0)), ('Info', REF(5, 0))], objs, 5), L('pad')
 
 
 # ---------------------------------------------------------------------------------------------
@@ -138,27 +158,63 @@ def chunks(rng):
 # cases
 # ---------------------------------------------------------------------------------------------
 def ref_pass(exe, items):
-    """items: list of (cfgwords, doc, prevhex) -> list of dict(full, state, ids, cut) or None"""
-    lines = [L('case', L('cfg', *cw), doc, prev, 'x', '0', L('chunks'), L('ref')) for cw, doc, prev in items]
+    """items: list of (cfgwords, (doc, pad), prevhex) -> list of dict(full, state, ids, cut, sizes) or None"""
+    lines = [L('case', L('cfg', *cw), doc[0], prev, 'x', '0', L('chunks'), L('ref'), doc[1]) for cw, doc, prev in items]
     out = vlib.run_lines(exe, lines, timeout=600, shards=8)
     res = []
     for o in out:
         o = vlib.split_impl(o)[0]
-        m = re.fullmatch(r'\(ref ok (x[0-9a-f]*) \(state (\d+) (\(d.*\))\) (\(ids[ 0-9]*\)) (-?\d+)\)', o)
+        m = re.fullmatch(r'\(ref ok (x[0-9a-f]*) \(state (\d+) (\(d.*\))\) (\(ids[ 0-9]*\)) (-?\d+) (\(sizes[ 0-9]*\))\)', o)
         if not m or int(m.group(5)) < 0:
             res.append(None)
             continue
-        res.append({'full': m.group(1), 'max_id': m.group(2), 'trailer': m.group(3), 'ids': m.group(4), 'cut': m.group(5)})
+        res.append({'full': m.group(1), 'max_id': m.group(2), 'trailer': m.group(3), 'ids': m.group(4), 'cut': m.group(5),
+                    'sizes': m.group(6)})
     return res
 
 
+def path_positions(rng, total, cut, quick):
+    """room (bytes the device takes before it fails) for the save(path) sweeps: every offset for short outputs, otherwise the
+    offsets where the behaviour can change -- around the ends, the mutation point and the multiples of the buffer capacity
+    (before them a flush inside save_internal sees the failure, in the last partial buffer only into_inner's flush does)
+    -- plus random ones"""
+    if total <= (400 if quick else 3000):
+        return list(range(0, total + 2))
+    ps = {0, 1, 2, total - 2, total - 1, total, total + 1, cut - 1, cut, cut + 1,
+          cut - BUF - 1, cut - BUF, cut - BUF + 1, total - BUF - 1, total - BUF, total - BUF + 1}
+    k = 1
+    while k * BUF <= total + BUF:
+        ps |= {k * BUF - 1, k * BUF, k * BUF + 1}
+        k += 1
+    for _ in range(16 if quick else 200):
+        ps.add(rng.randrange(total))
+    # the last partial buffer: failures that only the final flush meets
+    last = (total // BUF) * BUF
+    for _ in range(4 if quick else 40):
+        ps.add(rng.randint(min(last, total - 1), total - 1))
+    return sorted(p for p in ps if 0 <= p <= total + 1)
+
+
+def probe_devices(exe, prev):
+    """which failing devices this machine offers to the harness: {'full': bool, 'limit': bool}"""
+    doc = base_doc()[0]
+    mk = lambda job: L('case', L('cfg', 'table', 'plain', '5', L('d'), L('ids')), doc, 'x', prev, '0', L('chunks'), job)
+    out = vlib.run_lines(exe, [mk(L('path', 'full', L('sizes'))), mk(L('path', L('limit', '10'), L('sizes')))], timeout=120)
+    ok = [not vlib.split_impl(o)[0].startswith('(nodevice') for o in out]
+    return {'full': ok[0], 'limit': ok[1]}
+
+
+RULE_BASE = None
+
+
 def gen_cases(rng, tier):
+    global RULE_BASE
     exe, log = vlib.build_harness('c19')
     if exe is None:
         return []
     g = Gen(rng)
     quick = tier == 'quick'
-    plan = [('tiny', 8 if quick else 120), ('small', 8 if quick else 150), ('medium', 4 if quick else 80)]
+    plan = [('tiny', 8 if quick else 120), ('small', 8 if quick else 150), ('medium', 4 if quick else 80), ('large', 2 if quick else 30)]
     docs = []
     for size, n in plan:
         for _ in range(n):
@@ -166,11 +222,16 @@ def gen_cases(rng, tier):
     # previous revisions for the incremental configurations (one per xref format)
     prevs = ref_pass(exe, [((m, 'plain'), base_doc(), 'x') for m in ('table', 'stream')])
     prev_of = {'table': prevs[0]['full'], 'stream': prevs[1]['full']}
+    dev = probe_devices(exe, prevs[0]['full'])
+    if RULE_BASE is None:
+        RULE_BASE = SPEC['rule']
+    SPEC['rule'] = RULE_BASE + ('' if dev['full'] else ' [/dev/full is missing or accepts writes on this machine: the full-device cases were SKIPPED]') \
+        + ('' if dev['limit'] else ' [RLIMIT_FSIZE cannot be set on this machine: the failing-file sweeps of save(path) were SKIPPED]')
     items = []
     for size, doc in docs:
         for m in ('table', 'stream'):
             for k in ('plain', 'inc'):
-                if k == 'inc' and size == 'medium' and rng.random() < 0.5:
+                if k == 'inc' and size in ('medium', 'large') and rng.random() < 0.5:
                     continue
                 prev = prev_of[m] if k == 'inc' else 'x'
                 if k == 'inc' and rng.random() < 0.3:
@@ -184,8 +245,9 @@ def gen_cases(rng, tier):
             continue
         total = (len(ref['full']) - 1) // 2
         cfg = L('cfg', m, k, ref['max_id'], ref['trailer'], ref['ids'])
+        full_parts = parts(ref['full'])
         def case(job, ch=None):
-            return L('case', cfg, doc, prev, ref['full'], ref['cut'], ch or chunks(rng), job)
+            return L('case', cfg, doc[0], prev, full_parts, ref['cut'], ch or chunks(rng), job, doc[1])
         tag = '%s-%s-%s' % (m, k, size)
         # (1) soft sinks, call-driven: Ok and every byte, whatever the short-write pattern
         for _ in range(2 if quick else 4):
@@ -197,13 +259,26 @@ def gen_cases(rng, tier):
         # (3) failure at every offset (small outputs) / sampled offsets (larger ones)
         nsweeps = 1 if quick else 3
         for _ in range(nsweeps):
-            if size == 'medium' or (k == 'inc' and quick):
+            if size in ('medium', 'large') or (k == 'inc' and quick):
                 step = max(1, total // (40 if quick else 400))
                 lo = rng.randrange(step)
             else:
                 step, lo = 1, 0
             job = L('sweep', L('script', *soft_script(rng, total)), hard_resp(rng), str(lo), str(total), str(step))
             cases.append((case(job), {'kind': tag + ('-sweep-all' if step == 1 else '-sweep-sampled'), 'nontrivial': True}))
+        # (4) Document::save(path) / IncrementalDocument::save(path) on real files whose device fails
+        sizes = ref['sizes']
+        if sizes == '(sizes)':
+            continue
+        fixed = L('chunks', '1')
+        cases.append((case(L('path', 'file', sizes), fixed), {'kind': tag + '-path-file', 'nontrivial': True}))
+        cases.append((case(L('path', 'dir', sizes), fixed), {'kind': tag + '-path-dir', 'nontrivial': True}))
+        if dev['full']:
+            cases.append((case(L('path', 'full', sizes), fixed), {'kind': tag + '-path-devfull', 'nontrivial': True}))
+        if dev['limit']:
+            ps = path_positions(rng, total, int(ref['cut']), quick)
+            cases.append((case(L('psweep', sizes, L('at', *[str(p) for p in ps])), fixed),
+                          {'kind': tag + '-path-limit-sweep', 'nontrivial': True}))
     return cases
 
 
@@ -220,8 +295,17 @@ SPEC = {
             'EVERY byte offset of the complete output for tiny/small documents and at sampled offsets for larger ones; '
             'the model is given the implementation\'s own reference output cut into arbitrary write_all calls; '
             'each run is followed by a re-save of the same document object to a healthy sink which must load back to the reference content; '
+            'Document::save(path) and IncrementalDocument::save(path) (BufWriter<File> + into_inner) on the same documents, outputs from '
+            '100 bytes to 40 KiB (below and above the 8 KiB buffer, streams of capacity-1/capacity/capacity+1 bytes): a healthy temporary '
+            'file, a directory path (File::create fails), /dev/full (every write fails), and temporary files under RLIMIT_FSIZE = p '
+            '(the kernel takes p bytes, then every write fails with EFBIG) for every p on short outputs and for p around 0, the mutation '
+            'point, every multiple of 8192, the last partial buffer and the end on long ones; the model (Model/SinkBuf.v) is run with the '
+            'write_all buffer sizes measured on the implementation; '
             'non-trivial = every case; distinct = distinct case text',
     'extra_trusted': ['C19: std::io::Write::write_all (retry on Interrupted, WriteZero on Ok(0), advance on short write) transcribed from the std source',
+                      'C19: std::io::BufWriter (capacity 8192; write_all buffers or flushes then writes through; flush_buf = the write_all loop on the '
+                      'buffer; into_inner flushes and reports the error; Drop flushes and discards it) transcribed from the std source/documentation',
+                      'C19: the kernel\'s RLIMIT_FSIZE behaviour (short write up to the limit, EFBIG afterwards) and /dev/full (ENOSPC) as failing devices',
                       'C19: the complete output fed to the model is the implementation\'s own (perfect sink); what the bytes ARE is C01/C03\'s concern'],
     'partial_note': 'resave_after_failure is proved for the document state and the issued calls (C19_failed_save_residue, '
                     'C19_resave_table, C19_resave_stream_partial); that the re-saved file loads to the same content needs the loader '
